@@ -28,6 +28,11 @@ def tie(ctx):
 
 def gen(rng):
     r = rng.random()
+    if 0.69 <= r < 0.75:
+        # a directed branch (pressure controller) whose inlet side is cut off while its outlet side is supplied: no flow may
+        # appear at or disappear from the supplied junctions
+        from props import c04
+        return c04.gen_directed(rng)
     if r < 0.75:
         return netgen.gen_hydraulic(rng)
     if r < 0.9:
